@@ -165,6 +165,7 @@ def variants(ring, rng, all_of_them):
 
 def check(run):
     run.prove(MODULE, THEOREMS)
+    run.corpus(impl, spec)
     rng = run.rng
     grid = run.scale(4, 5)
     rings = simple_rings(rng, grid, (3, 4, 5) if run.quick else (3, 4, 5, 6), run.scale(60, 400))
